@@ -90,7 +90,37 @@ def apply_edits(text, edits):
     return ''.join(out)
 
 
+def pub_rule(text, fired):
+    """R1: top-level struct/enum and their named fields become `pub` (visibility only; Verus requires contract
+    expressions of pub fns to be well-formed everywhere)."""
+    toks = code_tokens(text)
+    edits = []
+    for it in iter_items(toks, 0, len(toks)):
+        kw = toks[it.h0].text
+        if kw in ('struct', 'enum', 'trait') and (it.h0 == 0 or toks[it.h0 - 1].text != 'pub') and \
+                not (it.h0 >= 1 and toks[it.h0 - 1].text == ')'):
+            edits.append((toks[it.h0].start, toks[it.h0].start, 'pub '))
+            fired['R1'] = fired.get('R1', 0) + 1
+        if kw == 'struct' and it.open_i is not None:
+            k = it.open_i + 1
+            depth = 0
+            while k < it.close_i:
+                t = toks[k]
+                if t.kind == 'punct' and t.text in '([{<':
+                    depth += 1
+                elif t.kind == 'punct' and t.text in ')]}>' and not (t.text == '>' and toks[k - 1].text == '-'):
+                    depth -= 1
+                elif depth == 0 and t.kind == 'ident' and toks[k + 1].text == ':' and toks[k + 2].text != ':' \
+                        and toks[k - 1].text in ('{', ','):
+                    edits.append((t.start, t.start, 'pub '))
+                    fired['R1'] = fired.get('R1', 0) + 1
+                k += 1
+        break
+    return apply_edits(text, edits)
+
+
 def auto_rules(text, fired):
+    text = pub_rule(text, fired)
     toks = code_tokens(text)
     edits = []
     n = len(toks)
@@ -175,18 +205,33 @@ class ItemBlock:
         self.is_slice = False
 
 
+def expand_includes(tpl_text, tpl_dir, label=None, depth=0):
+    """-> list of (origin label, line text); //@include lines are replaced by the file's lines (recursively)."""
+    if depth > 5:
+        raise GenError('include depth')
+    out = []
+    for ln, line in enumerate(tpl_text.split('\n'), 1):
+        s = line.strip()
+        if s.startswith('//@include '):
+            f = s[len('//@include '):].strip()
+            out.extend(expand_includes(open(os.path.join(tpl_dir, f)).read(), tpl_dir, f, depth + 1))
+        else:
+            out.append(('%s:%d' % (label, ln) if label else ln, line))
+    return out
+
+
 def parse_template(tpl_text, tpl_dir='.'):
-    """-> list of ('text', line_no, text) | ('item', ItemBlock)"""
+    """-> list of ('text', line_no, text) | ('item', ItemBlock) | ('mode', m)"""
     parts = []
     cur = None
     last_dir = None
-    for ln, line in enumerate(tpl_text.split('\n'), 1):
+    for ln, line in expand_includes(tpl_text, tpl_dir):
         s = line.strip()
         if s.startswith('//@'):
             body = s[3:]
             if body.startswith('    ') or body.startswith('\t'):
                 if last_dir is None:
-                    raise GenError('template line %d: continuation without directive' % ln)
+                    raise GenError('template line %s: continuation without directive' % ln)
                 last_dir[1] += '\n' + body.strip()
                 continue
             body = body.strip()
@@ -197,15 +242,9 @@ def parse_template(tpl_text, tpl_dir='.'):
             if word == 'mode':
                 parts.append(('mode', arg))
                 continue
-            if word == 'include':
+            if word in ('item', 'slice'):
                 if cur is not None:
-                    raise GenError('template line %d: //@include inside block' % ln)
-                for k, l in enumerate(open(os.path.join(tpl_dir, arg)).read().split('\n'), 1):
-                    parts.append(('text', '%s:%d' % (arg, k), l))
-                last_dir = None
-            elif word in ('item', 'slice'):
-                if cur is not None:
-                    raise GenError('template line %d: //@item inside open block' % ln)
+                    raise GenError('template line %s: //@item inside open block' % ln)
                 segs = [x.strip() for x in arg.split(' :: ')]
                 cur = ItemBlock(segs[0], segs[1:], ln)
                 cur.is_slice = (word == 'slice')
@@ -216,16 +255,16 @@ def parse_template(tpl_text, tpl_dir='.'):
                 last_dir = None
             else:
                 if cur is None:
-                    raise GenError('template line %d: directive outside //@item block' % ln)
+                    raise GenError('template line %s: directive outside //@item block' % ln)
                 last_dir = [word, arg, ln]
                 cur.directives.append(last_dir)
         else:
-            if cur is not None and s:
-                raise GenError('template line %d: plain text inside //@item block (missing //@end?)' % ln)
+            if cur is not None and s and not s.startswith('//'):
+                raise GenError('template line %s: plain text inside //@item block (missing //@end?)' % ln)
             if cur is None:
                 parts.append(('text', ln, line))
     if cur is not None:
-        raise GenError('unterminated //@item block at template line %d' % cur.tpl_line)
+        raise GenError('unterminated //@item block at template line %s' % cur.tpl_line)
     return parts
 
 
@@ -401,14 +440,14 @@ def extract_item(block, unit, fired_total, clauses, meta_items, mode='verus'):
         if w == 'rw':
             m = re.match(r'^(\S+)\s+/(.*)/\s*=>\s*/(.*)/\s*(\{(\d+)(?:,(\d+))?\})?$', a, re.S)
             if not m:
-                raise GenError('template line %d: bad //@rw' % ln)
+                raise GenError('template line %s: bad //@rw' % ln)
             rule, pat, rep = m.group(1), m.group(2), m.group(3)
             cnt = [0]
 
             def f(mo):
                 cnt[0] += 1
                 return keep_lines(mo.group(0), mo.expand(rep))
-            text = re.sub(pat, f, text, flags=re.S)
+            text = re.sub(pat, f, text, flags=re.S | re.M)
             lo = int(m.group(5)) if m.group(5) else 1
             hi_ = int(m.group(6)) if m.group(6) else (lo if m.group(5) else None)
             if cnt[0] < lo or (hi_ is not None and cnt[0] > hi_):
@@ -420,6 +459,31 @@ def extract_item(block, unit, fired_total, clauses, meta_items, mode='verus'):
         head = '\n'.join(a for (w, a, _) in block.directives if w == 'head')
         tail = '\n'.join(a for (w, a, _) in block.directives if w == 'tail')
         text = tag_lines(head, 'wrap', '') + text + '\n' + tag_lines(tail, 'wrap', '')
+    if mode == 'verus':
+        # R13: name the ghost iterator of every `for` loop: `for P in E {` -> `for P in vx_it<k>: E {`
+        tk = code_tokens(text)
+        edits = []
+        k = 0
+        for (kw, op, cl) in find_loops(tk, 0, len(tk)):
+            if tk[kw].text != 'for':
+                continue
+            k += 1
+            # find `in` at depth 0 between kw and op
+            j = kw + 1
+            while j < op:
+                if tk[j].kind == 'punct' and tk[j].text in '([':
+                    j = match_close(tk, j) + 1
+                    continue
+                if tk[j].kind == 'ident' and tk[j].text == 'in':
+                    break
+                j += 1
+            if j >= op:
+                continue
+            if tk[j + 2].text == ':' and tk[j + 3].text != ':':
+                continue  # already named
+            edits.append((tk[j].end, tk[j].end, ' vx_it%d:' % k))
+            fired['R13'] = fired.get('R13', 0) + 1
+        text = apply_edits(text, edits)
     # R0 return naming (in place, before injection)
     cur_segs = []
     rets = []
@@ -433,7 +497,7 @@ def extract_item(block, unit, fired_total, clauses, meta_items, mode='verus'):
             # R12: the fn's tail expression has unit type; terminate it with `;` so that proof text can follow
             tgt, tk = locate(text, cur_segs)
             if tgt.open_i is None:
-                raise GenError('template line %d: //@semi on fn without body' % ln)
+                raise GenError('template line %s: //@semi on fn without body' % ln)
             lt = tk[tgt.close_i - 1]
             if lt.text not in (';', '}', '{'):
                 text = text[:lt.end] + ';' + text[lt.end:]
@@ -453,7 +517,7 @@ def extract_item(block, unit, fired_total, clauses, meta_items, mode='verus'):
                 break
             k += 1
         if arrow is None:
-            raise GenError('template line %d: //@ret on fn without return type' % ln)
+            raise GenError('template line %s: //@ret on fn without return type' % ln)
         # return type ends at `where` or body/;
         e = arrow + 2
         d = 0
@@ -497,7 +561,9 @@ def extract_item(block, unit, fired_total, clauses, meta_items, mode='verus'):
                 a = a.strip()
             m = CLAUSE_ID.match(a)
             if m:
-                cid_short, expr = m.group(1), m.group(2)
+                cid_short = '%s.%s' % ({'requires': 'req', 'ensures': 'ens', 'inv': 'loop%s.inv' % n, 'dec': 'loop%s.dec' % n,
+                                        'fndec': 'dec'}[w], m.group(1))
+                expr = m.group(2)
             else:
                 ck = (fname, w, n)
                 counters[ck] = counters.get(ck, 0) + 1
@@ -514,10 +580,14 @@ def extract_item(block, unit, fired_total, clauses, meta_items, mode='verus'):
             proofs.append((list(cur_segs), where.strip(), txt.strip(), ln))
         elif w == 'member':
             members.append((list(cur_segs), a, ln))
+        elif w == 'attr':
+            tgt, tk = locate(text, cur_segs)
+            ls = line_start(text, tk[tgt.first].start)
+            add(ls, tag_lines(a, 'attr', '    '))
         elif w in ('ret', 'rw', 'only', 'drop', 'name', 'semi', 'from', 'to', 'head', 'tail'):
             pass
         else:
-            raise GenError('template line %d: unknown directive %r' % (ln, w))
+            raise GenError('template line %s: unknown directive %r' % (ln, w))
 
     for key, g in groups.items():
         tgt, tk = locate(text, list(key))
@@ -545,6 +615,16 @@ def extract_item(block, unit, fired_total, clauses, meta_items, mode='verus'):
                 if n > len(loops):
                     raise GenError('anchor lost: loop %d of %s (found %d loops)' % (n, key or block.path[-1], len(loops)))
                 kw, op, cl_i = loops[n - 1]
+                itname = None
+                for j in range(kw + 1, op - 2):
+                    if tk[j].kind == 'ident' and tk[j].text == 'in' and tk[j + 1].text.startswith('vx_it') and tk[j + 2].text == ':':
+                        itname = tk[j + 1].text
+                        break
+                for cl in g.get(('inv', n), []) + g.get(('dec', n), []):
+                    if '$it' in cl.text:
+                        if itname is None:
+                            raise GenError('$it used on a loop without ghost iterator (loop %d)' % n)
+                        cl.text = cl.text.replace('$it', itname)
                 s = ''
                 invs = g.get(('inv', n), [])
                 if invs:
@@ -558,7 +638,7 @@ def extract_item(block, unit, fired_total, clauses, meta_items, mode='verus'):
     for segs, where, txt, ln in proofs:
         tgt, tk = locate(text, segs)
         if tgt.open_i is None:
-            raise GenError('template line %d: proof on fn without body' % ln)
+            raise GenError('template line %s: proof on fn without body' % ln)
         pcount += 1
         fname = fn_name_of(segs[-1] if segs else block.path[-1])
         cid = '%s.%s%s.hint%d' % (unit, blockname, fname, pcount)
@@ -582,7 +662,7 @@ def extract_item(block, unit, fired_total, clauses, meta_items, mode='verus'):
             n = int(wparts[1])
             pat = wparts[2].strip()
             if not (pat.startswith('"') and pat.endswith('"')):
-                raise GenError('template line %d: pattern must be quoted' % ln)
+                raise GenError('template line %s: pattern must be quoted' % ln)
             ptoks = [t.text for t in code_tokens(pat[1:-1])]
             cnt, hit = 0, None
             for k in range(tgt.open_i + 1, tgt.close_i - len(ptoks) + 1):
@@ -604,7 +684,7 @@ def extract_item(block, unit, fired_total, clauses, meta_items, mode='verus'):
                     raise GenError('anchor not at line end: %s (template line %d)' % (pat, ln))
                 add(le, '\n' + tagged.rstrip('\n'))
         else:
-            raise GenError('template line %d: bad proof location %r' % (ln, where))
+            raise GenError('template line %s: bad proof location %r' % (ln, where))
     for segs, txt, ln in members:
         tgt, tk = locate(text, segs)
         if tgt.open_i is None:
